@@ -192,6 +192,47 @@ fn law_ops<E: Pairing>(op: &str, a: &[Arg]) -> Option<Vec<Arg>> {
             let e = E::pairing(g1m::<E>(&a[1][0]), g2m::<E>(&a[1][1]));
             ok(vec![b(e.is_zero()), b(e.0.is_one())])
         },
+        // [s, t] , junk bytes: the identity of G1 / G2 obtained by DESERIALIZING an uncompressed encoding whose infinity
+        // flag is set over non-blank coordinate bytes (a rarely produced form of a public function's output): whatever is
+        // returned as Ok and is_zero() must pair to one and vanish from a multi-pairing
+        "pairing_with_decoded_identity" => {
+            use ark_serialize::{CanonicalDeserialize, CanonicalSerialize, Compress, Validate};
+            let (p, q) = (g1m::<E>(&a[1][0]).into_affine(), g2m::<E>(&a[1][1]).into_affine());
+            let junk: Vec<u8> = a[2].iter().map(|v| to_u64(v) as u8).collect();
+            fn forge<A: CanonicalSerialize + CanonicalDeserialize + ark_ec::AffineRepr>(junk: &[u8], v: Validate) -> Option<A> {
+                let mut bytes = vec![];
+                A::zero().serialize_with_mode(&mut bytes, Compress::No).ok()?;
+                let n = bytes.len();
+                let half = n / 2;
+                for i in 0..n {
+                    // keep the top byte of each coordinate (x: stays below p; y: carries the flags) untouched
+                    if i != half - 1 && i != n - 1 {
+                        bytes[i] |= junk[i % junk.len().max(1)];
+                    }
+                }
+                A::deserialize_with_mode(&bytes[..], Compress::No, v).ok()
+            }
+            let mut res = vec![];
+            for v in [Validate::Yes, Validate::No] {
+                let o1: Option<E::G1Affine> = forge(&junk, v);
+                let o2: Option<E::G2Affine> = forge(&junk, v);
+                let ok1 = match o1 {
+                    Some(z) if z.is_zero() => {
+                        E::pairing(z, q).is_zero() && E::multi_pairing([z, p], [q, q]) == E::pairing(p, q)
+                    },
+                    _ => true,
+                };
+                let ok2 = match o2 {
+                    Some(z) if z.is_zero() => {
+                        E::pairing(p, z).is_zero() && E::multi_pairing([p, p], [z, q]) == E::pairing(p, q)
+                    },
+                    _ => true,
+                };
+                res.push(b(ok1));
+                res.push(b(ok2));
+            }
+            ok(res)
+        },
         // [s, t]: e(sG1, tG2)^r == 1
         "output_order_divides_r" => {
             let e = E::pairing(g1m::<E>(&a[1][0]), g2m::<E>(&a[1][1]));
